@@ -304,6 +304,9 @@ type replayOutcome struct {
 	Raw     string
 }
 
+// raceMode builds the replay test with the race detector (C19 violations).
+var raceMode bool
+
 // runReplays runs the given replay files natively, grouped by package: one `go test` per package.
 func runReplays(files []harnessFile, reps []string, hang bool) map[string]replayOutcome {
 	out := map[string]replayOutcome{}
@@ -381,13 +384,19 @@ func runReplays(files []harnessFile, reps []string, hang bool) map[string]replay
 		}
 		for _, batch := range batches {
 			pat := "./" + dir
-			cmd := exec.Command("go", "test", "-tags", "verif", "-vet=off", "-count=1", "-timeout", timeout, "-overlay", ovPath, "-run", "^TestVerifReplay$", "-v", pat)
+			goArgs := []string{"test", "-tags", "verif", "-vet=off", "-count=1", "-timeout", timeout, "-overlay", ovPath, "-run", "^TestVerifReplay$", "-v"}
+			if raceMode {
+				goArgs = append(goArgs, "-race")
+			}
+			goArgs = append(goArgs, pat)
+			cmd := exec.Command("go", goArgs...)
 			cmd.Dir = repoDir
 			listPath := filepath.Join(work, fmt.Sprintf("list-%d.txt", len(out)))
 			os.WriteFile(listPath, []byte(strings.Join(batch, ";")), 0o644)
 			cmd.Env = append(goEnv(), "VERIF_REPLAY_LIST_FILE="+listPath)
 			b, _ := cmd.CombinedOutput()
 			raw := string(b)
+			sawRace := strings.Contains(raw, "WARNING: DATA RACE")
 			started := ""
 			for _, ln := range strings.Split(raw, "\n") {
 				if strings.HasPrefix(ln, "VERIF-REPLAY-START file=") {
@@ -400,6 +409,9 @@ func runReplays(files []harnessFile, reps []string, hang bool) map[string]replay
 						json.Unmarshal([]byte(m[2]), &o)
 						if m[3] != "" {
 							json.Unmarshal([]byte(m[3]), &c)
+						}
+						if sawRace {
+							o = "race"
 						}
 						ro := replayOutcome{Outcome: o, Raw: ""}
 						if c != "" {
@@ -454,6 +466,7 @@ func cmdReplay(args []string) int {
 	if err := json.Unmarshal(b, &rf); err != nil {
 		fatal("%v", err)
 	}
+	raceMode = rf.Expect == "race"
 	res := runReplays(collectHarness(), []string{p}, rf.Expect == "hang")
 	ro := res[p]
 	fmt.Printf("replay %s: harness=%s expected=%s observed=%s\n", p, rf.Harness, rf.Expect, ro.Outcome)
@@ -480,6 +493,8 @@ func outcomeMatches(rf replayFile, ro replayOutcome) bool {
 		return ro.Outcome == rf.Expect
 	case rf.Expect == "panic":
 		return strings.HasPrefix(ro.Outcome, "panic:") || strings.HasPrefix(ro.Outcome, "fatal")
+	case rf.Expect == "race":
+		return ro.Outcome == "race"
 	case rf.Expect == "hang":
 		return ro.Outcome == "timeout" || strings.HasPrefix(ro.Outcome, "fatal")
 	}
